@@ -122,3 +122,8 @@ Proof. intros H1 H2 Hi. unfold listed_fields in Hi. apply filter_In in Hi as [_ 
 Theorem deprecated_value_not_listed Qy D tn v vs :
   iq_values_deprecated Qy = false -> is_dep (dep_values D) tn v = true -> ~ In v (listed_values Qy D tn vs).
 Proof. intros H1 H2 Hi. unfold listed_values in Hi. apply filter_In in Hi as [_ Hi]. rewrite H1, H2 in Hi. discriminate. Qed.
+
+Theorem without_include_deprecated : forall Qy D tn,
+  (forall f t fs, iq_fields_deprecated Qy = false -> is_dep (dep_fields D) tn f = true -> ~ In (f, t) (listed_fields Qy D tn fs)) /\
+  (forall v vs, iq_values_deprecated Qy = false -> is_dep (dep_values D) tn v = true -> ~ In v (listed_values Qy D tn vs)).
+Proof. intros Qy D tn. split; [intros f t fs; apply deprecated_field_not_listed | intros v vs; apply deprecated_value_not_listed]. Qed.
